@@ -190,6 +190,31 @@ pub fn pem_decode(pem: &str, label: &str) -> Option<Vec<u8>> {
     b64_decode(&b64)
 }
 
+pub fn b64_encode(b: &[u8]) -> String {
+    const T: &[u8; 64] = b"ABCDEFGHIJKLMNOPQRSTUVWXYZabcdefghijklmnopqrstuvwxyz0123456789+/";
+    let mut out = String::new();
+    for c in b.chunks(3) {
+        let v = (c[0] as u32) << 16 | (*c.get(1).unwrap_or(&0) as u32) << 8 | *c.get(2).unwrap_or(&0) as u32;
+        out.push(T[(v >> 18) as usize & 63] as char);
+        out.push(T[(v >> 12) as usize & 63] as char);
+        out.push(if c.len() > 1 { T[(v >> 6) as usize & 63] as char } else { '=' });
+        out.push(if c.len() > 2 { T[v as usize & 63] as char } else { '=' });
+    }
+    out
+}
+
+/// RFC 7468 textual encoding: 64-character lines between the armour lines
+pub fn pem_encode(label: &str, der: &[u8], eol: &str) -> String {
+    let b64 = b64_encode(der);
+    let mut out = format!("-----BEGIN {}-----{}", label, eol);
+    for l in b64.as_bytes().chunks(64) {
+        out.push_str(std::str::from_utf8(l).unwrap());
+        out.push_str(eol);
+    }
+    out.push_str(&format!("-----END {}-----{}", label, eol));
+    out
+}
+
 pub fn b64_decode(s: &str) -> Option<Vec<u8>> {
     let mut out = Vec::new();
     let mut acc = 0u32;
